@@ -18,6 +18,9 @@ type Case struct {
 	Cfg   PluginCfg `json:"cfg"`
 	Doc   string    `json:"doc"`
 	Twice bool      `json:"twice,omitempty"`
+	// Warm: before the event, the same instance processes a copy of it that carries every
+	// field a metric label is read from (an earlier event of another service).
+	Warm bool `json:"warm,omitempty"`
 }
 
 // ---------------------------------------------------------------- regexp grammar with a sampler
@@ -342,12 +345,20 @@ func genOneMask(t *rapid.T, i int) genMask {
 	}
 	if rapid.IntRange(0, 2).Draw(t, l+"/metric") == 0 {
 		gm.cfg.MetricName = fmt.Sprintf("m%d_total", i)
+		// the series of the metric is chosen by fields of the event ("not_set" when a field is absent)
+		switch rapid.IntRange(0, 3).Draw(t, l+"/metric_labels") {
+		case 1:
+			gm.cfg.MetricLabels = []string{rapid.SampledFrom(metricLabelPool).Draw(t, l+"/metric_label")}
+		case 2:
+			gm.cfg.MetricLabels = []string{"level", "user"}
+		}
 	}
 	return gm
 }
 
 // ---------------------------------------------------------------- events and lists
 
+var metricLabelPool = []string{"level", "user", "a", "trace_id", "svc"}
 var docKeys = []string{"a", "b", "c", "message", "user", "trace_id", "data", "x.y", "list", "é", "level"}
 var contextPieces = []string{"", " ", "-", "id=", " end", "é", "x", "a", "1", "日", "*", "\"", "\n", "pre ", "K", "İ", "ſ", "É", "Tok", "SECRET "}
 var numberPool = []string{"12", "1234", "-7", "0.5", "1e3", "-0", "12345678901234567890", "4111", "7"}
@@ -529,6 +540,12 @@ func gen(t *rapid.T) Case {
 		c.Cfg.MaskAppliedValue = rapid.SampledFrom([]string{"true", "", "é\n"}).Draw(t, "mav")
 	}
 	c.Twice = rapid.IntRange(0, 3).Draw(t, "twice") == 0
+	for _, m := range c.Cfg.Masks {
+		if len(m.MetricLabels) > 0 {
+			c.Warm = rapid.Bool().Draw(t, "warm")
+			break
+		}
+	}
 	return c
 }
 
